@@ -2,6 +2,7 @@ package mon
 
 import (
 	"bytes"
+	"encoding/binary"
 	"fmt"
 	"math/big"
 	"time"
@@ -191,6 +192,27 @@ func runC15(c *core.Ctx) {
 			if cl, err := lease.NewLease(data.Hash(m1.GW), m1.TunnelID, time.UnixMilli(int64(ms))); err != nil || !bytes.Equal(cl.Bytes(), m1.Encode()) {
 				c.Violate("lease.NewLease", "stored-value-differs", sh, m1.Encode(), fmt.Sprint(err))
 			}
+		}
+		// conversions between second and millisecond timestamps over the same range
+		{
+			sh := gen.Shape{"ms_bits": big.NewInt(0).SetUint64(ms).BitLen(), "class": "conversion"}
+			want := new(big.Int).SetUint64(ms)
+			wb := make([]byte, 8)
+			binary.BigEndian.PutUint64(wb, ms)
+			if d, err := data.NewDateFromMillis(int64(ms)); err != nil || d == nil || rm.BigFromBytes(d[:]).Cmp(want) != 0 {
+				c.Violate("data.NewDateFromMillis", "conversion-inexact", sh, wb, fmt.Sprintf("%d ms stored as %v (%v)", ms, d, err))
+			} else if unixMsBig(d.Time()).Cmp(want) != 0 {
+				c.Violate("data.Date.Time", "conversion-inexact", sh, wb, "")
+			}
+			if d, err := data.DateFromTime(time.UnixMilli(int64(ms))); err != nil || d == nil || rm.BigFromBytes(d[:]).Cmp(want) != 0 {
+				c.Violate("data.DateFromTime", "conversion-inexact", sh, wb, fmt.Sprintf("%d ms stored as %v (%v)", ms, d, err))
+			}
+			sec := int64(ms / 1000)
+			wantS := new(big.Int).Mul(big.NewInt(sec), big.NewInt(1000))
+			if d, err := data.NewDateFromUnix(sec); err != nil || d == nil || rm.BigFromBytes(d[:]).Cmp(wantS) != 0 {
+				c.Violate("data.NewDateFromUnix", "conversion-inexact", sh, wb, fmt.Sprintf("%d s stored as %v (%v)", sec, d, err))
+			}
+			c.Bucket("second-millisecond-conversions")
 		}
 		// offline signature expiry
 		o := gen.Offline(r, 7)
